@@ -209,7 +209,7 @@ class HamiltonianChain(MarkovChain):
         )
 
     def finite_diff(self, t: ndarray) -> ndarray:
-        p = self.posterior(t) * self.inv_temp
+        p = self.posterior(t)
         G = zeros(self.n_parameters)
         for i in range(self.n_parameters):
             # step size relative to the coordinate (absolute if the coordinate is zero)
@@ -221,7 +221,7 @@ class HamiltonianChain(MarkovChain):
                     dt = -dt
             t_step = t.copy()
             t_step[i] += dt
-            G[i] = (self.posterior(t_step) * self.inv_temp - p) / dt
+            G[i] = (self.posterior(t_step) - p) / dt
         return G
 
     def get_last(self) -> ndarray:
